@@ -573,7 +573,7 @@ func checkSweepConstant(c *Ctx, rule string) {
 }
 
 func enclosingFuncObj(p *Program, info *types.Info, pos token.Pos, pk interface{}) *types.Func {
-	p.funcDecl(nil)
+	p.ensureDecls()
 	for obj, fd := range p.declCache {
 		if fd.Body != nil && fd.Pos() <= pos && pos <= fd.End() {
 			return obj
